@@ -234,7 +234,7 @@ impl Rel {
     pub fn plan(&self, ctes: usize) -> Value {
         match self {
             Rel::Table { t, .. } => json!({"scan": t}),
-            Rel::Cte { idx, .. } => json!({"cte": idx}),
+            Rel::Cte { idx, name, .. } => json!({"cte": idx, "name": name}),   // "name" is extra information for C28 (ignored by queryOfJson)
             Rel::Derived { q, .. } => q.plan(ctes),
             Rel::Join { jt, l, r, lw, rw, on } => {
                 let mut subs = vec![];
@@ -351,7 +351,7 @@ impl QueryExpr {
         let mut n = ctes;
         for (_, d) in &self.with { defs.push(d.plan(n)); n += 1; }
         let mut q = self.body.plan(n);
-        if !defs.is_empty() { q = json!({"with": {"defs": defs, "body": q}}); }
+        if !defs.is_empty() { q = json!({"with": {"defs": defs, "body": q, "names": self.with.iter().map(|(n, _)| n.clone()).collect::<Vec<_>>()}}); }
         if !self.order.is_empty() {
             let mut none = vec![];
             let keys: Vec<Value> = self.order.iter().map(|k| json!({"e": k.e.plan(&mut none, n), "desc": k.desc, "nf": k.nulls_first})).collect();
